@@ -40,7 +40,8 @@ def records_for(inst, kernels, seed=0):
     m = m.reshape(h, w)
     sy, sx = [(1.0, 1.0), (0.5, 2.0), (0.1, 0.3)][int(rng.integers(0, 3))]
     oy, ox = [(0.0, 0.0), (1.5, -2.0), (-0.3, 0.7)][int(rng.integers(0, 3))]
-    mask = aa.Mask2D(mask=m, pixel_scales=(sy, sx), origin=(oy, ox))
+    lay = (len(u) + h + 2 * w) % 3  # memory layout of the array handed over: C order, Fortran order, transposed view
+    mask = aa.Mask2D(mask=m if lay == 0 else (np.asfortranarray(m) if lay == 1 else np.ascontiguousarray(m.T).T), pixel_scales=(sy, sx), origin=(oy, ox))
     # history: a decoy mask with the same row-major contents but another shape (and one with the same shape and other
     # contents) is inspected first; nothing it computed may leak into the judged mask
     for shp in {(w, h), (1, h * w), (h * w, 1)} - {(h, w)}:
